@@ -470,7 +470,7 @@ def check(ck):
     import ply
     import simple_ddl_parser
 
-    rnd, quick = ck.rnd, ck.quick()
+    quick = ck.quick()
     pkg_src = os.path.dirname(os.path.abspath(simple_ddl_parser.__file__))
     ply_src = os.path.dirname(os.path.abspath(ply.__file__))
     assert not pkg_src.startswith(REPO + os.sep), "must run on the scratch copy"
@@ -496,9 +496,9 @@ def check(ck):
             "the shipped parsetab.py read without PLY == that generation when its signature is the grammar's; contract (b): run() results (or exception) of every script "
             "in every state == in the shipped state; distinct = distinct (state, script) or (state, table check)")
     bound = ("states: %s; scripts: %s (all of them in shipped/missing%s, a sample of %d plus the scripts that exercise the hidden rule elsewhere); "
-             "rule functions hidden to build genuinely older table files: %s; productions exercised by the scripts: %s of %s"
-             % (", ".join(info["states"]), ", ".join("%s=%d" % kv for kv in sorted(counts.items())), "" if quick else "/stale/older-version", info["sample"],
-                ", ".join(info["hidden"]) or "none", info.get("covered_productions"), info.get("n_functions")))
+             "rule functions hidden (one per state) to build genuine table files of an older grammar: %s; rule functions exercised by the scripts: %s of %s"
+             % (_kinds(info["states"]), ", ".join("%s=%d" % kv for kv in sorted(counts.items())), "" if quick else "/stale-signature-text[prefix]/older-tabversion[3.8]", info["sample"],
+                ", ".join(info["hidden"]) or "none", info.get("covered_functions"), info.get("n_functions")))
     return rule, bound
 
 
@@ -550,9 +550,7 @@ def _check(ck, tmp, pkg_src, ply_src, shipped_bytes, scripts):
     unstable = set(i for i, r in enumerate(ref_results) if r is None or r == '["timeout"]')
     if unstable:
         notes["shipped"]["scripts_not_compared"] = len(unstable)
-    for i, s in enumerate(scripts):
-        if i not in unstable:
-            ck.ok("results:shipped", (s["group"], s["id"], _k(s)))
+    # (the shipped-state results are the reference of contract (b); they are not counted as evaluations)
     # which rule functions each script exercises (recorded by transparent wrappers in the reference run)
     cover = {}
     for i, fs in enumerate(ref.get("traces", [])):
@@ -574,8 +572,8 @@ def _check(ck, tmp, pkg_src, ply_src, shipped_bytes, scripts):
         for p in fresh["productions"][1:]:
             byf.setdefault(p[3], []).append(p[0])
         cands = sorted(f for f, ps in byf.items() if f and all(x.startswith("expr -> expr ") for x in ps))
-        info["n_functions"] = "%d rule functions" % len(byf)
-        info["covered_productions"] = "%d rule functions" % len([f for f in byf if f in cover])
+        info["n_functions"] = len(byf)
+        info["covered_functions"] = len([f for f in byf if f in cover])
     covered = [f for f in cands if f in cover]
     uncovered = [f for f in cands if f not in cover]
 
@@ -645,7 +643,7 @@ def _check(ck, tmp, pkg_src, ply_src, shipped_bytes, scripts):
             name2 = "older-tabversion+older-grammar[%s]" % func
             root2, tab2 = _copy_state(tmp, name2, pkg_src, ply_src, older_bytes)
             if _edit_tab(tab2, r"^_tabversion = .*$", "_tabversion = '3.8'"):
-                _state_run(ck, name2, "older-tabversion", root2, tab2, scripts, sorted(set(cover.get(func, [])[:40]) | set(pick[:60])), ref_results, unstable, fresh, hashseed(), notes,
+                _state_run(ck, name2, "older-tabversion+older-grammar", root2, tab2, scripts, sorted(set(cover.get(func, [])[:40]) | set(pick[:60])), ref_results, unstable, fresh, hashseed(), notes,
                            extra=dict(hidden_rule=func))
                 info["states"].append(name2)
     # ------------------------------------------------------------ missing and not writable (every parser regenerates)
@@ -655,6 +653,35 @@ def _check(ck, tmp, pkg_src, ply_src, shipped_bytes, scripts):
     _state_run(ck, "missing-unwritable", "missing-unwritable", root, tab, scripts, few, ref_results, unstable, fresh, hashseed(), notes, quiet=True)
     info["states"].append("missing-unwritable")
     return info
+
+
+RECIPES = {
+    "shipped": "private copy of the package with the repository's parsetab.py",
+    "missing": "private copy of the package with parsetab.py removed",
+    "stale-signature-text": "private copy; the _lr_signature string literal of parsetab.py edited (prefix added / indentation of the first '\\n        |' changed / last character dropped); tables untouched",
+    "older-tabversion": "private copy; _tabversion in parsetab.py set to an older value (3.8 / 3.5 / 3.2)",
+    "stale-older-grammar": "private copy; `def <hidden_rule>(` renamed so that it is no rule, parsetab.py removed, one DDLParser('') constructed (PLY writes the table file of that older grammar), source restored",
+    "older-tabversion+older-grammar": "as stale-older-grammar, then _tabversion in that parsetab.py set to '3.8'",
+    "missing-unwritable": "private copy; parsetab.py replaced by a DIRECTORY of that name (nothing to import, nothing can be written, also for root)",
+}
+
+
+def _recipe(kind):
+    base = kind.replace("+second-run", "")
+    r = RECIPES.get(base, base)
+    if kind.endswith("+second-run"):
+        r += "; one process has already run in that copy, this is a second process on the same copy"
+    return r + "; sub-process with the copy first on PYTHONPATH, PYTHONDONTWRITEBYTECODE=1"
+
+
+def _kinds(states):
+    out, n = [], {}
+    for st in states:
+        k = st.split("[")[0] if st.startswith(("stale-older-grammar", "older-tabversion+older-grammar")) else st
+        if k not in n:
+            out.append(k)
+        n[k] = n.get(k, 0) + 1
+    return ", ".join(k if n[k] == 1 else "%s x%d" % (k, n[k]) for k in out)
 
 
 def _tabversion(ply_src):
@@ -684,7 +711,7 @@ def _tables_in_use(ck, name, kind, res, fresh, extra=None):
         key = (name, which)
         if "exc" in t:
             ck.fail("tables", key, "c20:construction-fails:%s" % kind,
-                    dict(ddl="", observed=t, expected="DDLParser('') builds its parser (regenerating the tables if the cache is unusable)", state=name, stderr=res.get("stderr"), **(extra or {})))
+                    dict(ddl="", observed=t, expected="DDLParser('') builds its parser (regenerating the tables if the cache is unusable)", state=name, state_recipe=_recipe(kind), stderr=res.get("stderr"), **(extra or {})))
             ok = False
             continue
         if fresh is None:
@@ -693,7 +720,7 @@ def _tables_in_use(ck, name, kind, res, fresh, extra=None):
         if d:
             ck.fail("tables", key, "c20:tables-in-use-differ:%s" % kind,
                     dict(ddl="", observed=d, expected="DDLParser('').yacc action/goto/productions equal a fresh LALR generation from the declared grammar", state=name,
-                         parser="%s parser constructed in the process" % which, **(extra or {})))
+                         state_recipe=_recipe(kind), parser="%s parser constructed in the process" % which, **(extra or {})))
             ok = False
         else:
             ck.ok("tables", key)
@@ -735,7 +762,7 @@ def _state_run(ck, name, kind, root, tab, scripts, idx, ref_results, unstable, f
         else:
             g, e = json.loads(got), json.loads(ref_results[i])
             why = "exception" if g[0] == "exc" and e[0] != "exc" else "results-differ"
-            info = dict(ddl=s["ddl"], observed=g, expected=e, state=name, script=[s["group"], str(s["id"])], **(extra or {}))
+            info = dict(ddl=s["ddl"], observed=g, expected=e, state=name, state_recipe=_recipe(kind), script=[s["group"], str(s["id"])], **(extra or {}))
             if s["ctor"]:
                 info["ctor"] = s["ctor"]
             if s["run"]:
